@@ -168,6 +168,8 @@ pub struct SimPeer {
     /// tx hashes announced to this peer over the relay protocol (per session)
     pub relay_announced: Vec<packed::Byte32>,
     pub lag: u64,
+    /// a made-up tip this (deviating) peer announced; it "proves" it on request
+    pub fake_tip: Option<packed::VerifiableHeader>,
 }
 
 pub struct Sim {
@@ -230,6 +232,7 @@ impl Sim {
                 sent: 0,
                 relay_announced: Vec::new(),
                 lag: p.lag,
+                fake_tip: None,
             })
             .collect();
         let oracle = Checker::new(&plan);
@@ -1100,6 +1103,11 @@ impl Sim {
                     }
                     packed::LightClientMessageUnionReader::GetLastStateProof(r) => {
                         let req = r.to_entity();
+                        if let Some((m, tag)) = byz::crafted_proof_answer(self, p, &req) {
+                            self.stat("fault.crafted_proof_answer");
+                            self.peer_send_raw(p, session, proto, m.as_bytes(), tag);
+                            return;
+                        }
                         match server::last_state_proof(&self.world, view, &req) {
                             ProofAnswer::Silent(why) => {
                                 self.log(format!("peer{} stays silent: {}", p, why));
